@@ -1,1 +1,583 @@
-(* placeholder *)
+(* Event-level abstraction of the replication of ONE uuid-identified asset of bevy_sync (property C06).
+
+   Part A: one asset id of a URL class (mesh / image / audio): the announcement travels as a message
+           "asset updated, fetch it from <owner>", the content is fetched over HTTP from the owner's
+           endpoint.
+   Part M: one material id: the content travels inline in the message.
+
+   Rust: /repo/src/networking/assets/mod.rs  SyncAssetTransfer::{request, serve_mesh/_image/_audio},
+           process_mesh_assets / process_image_assets / process_audio_assets
+         /repo/src/server/track.rs, client/track.rs  react_on_changed_{meshes,images,audios,materials}
+         /repo/src/lib_priv.rs  skip_network_handle_change, apply_material_change_from_network,
+           pushed_handles_from_network
+         /repo/src/server/receiver.rs, client/receiver.rs  Message::{Mesh,Image,Audio}Updated,
+           StandardMaterialUpdated (the host relays with repeat_except_for_client, always)
+         /repo/src/full_sync/mod.rs  check_meshes / check_images / check_audios (serve + announce),
+           check_materials; client/mod.rs: the joining client also runs build_full_sync locally
+   Frame-level model: theories/Sync/Model.v  insert_asset, react_on_changed_assets, request_asset,
+         process_assets, CApplyMaterial, serve_all, build_full_sync, MAsset / MMaterial, last_schedule.
+
+   Per peer, for the ONE id:
+     store    Assets<T>[uuid]
+     events   AssetEvent::{Added,Modified} of the id the react system has not read yet (each local
+              insert AND each applied download / inline update produces one)
+     tok      the id is in pushed_handles_from_network.  It is a SET: one boolean, although several
+              events may be unread.  skip_network_handle_change removes it at the first event it
+              swallows: a second unread event is treated as a local change (defect S7).
+     served   this peer's HTTP cache entry of the id.  SyncAssetTransfer::request does NOTHING when
+              this peer's (mesh) cache holds the id (defect S12).
+     pending  downloads started and not yet applied: the owner to fetch from
+
+   What is abstracted away (documented, not modelled):
+   - "readable next frame": an event inserted in frame k is read by the react system in frame k+1 at the
+     earliest; a react run therefore reads a PREFIX of the unread events.  [AReact1] handles exactly one
+     event; [AReact] (one whole run over everything unread) is by definition [events] times [AReact1].
+     Every run of the frame-level model is an interleaving of AReact1 steps.
+   - download = HTTP GET + process_*_assets, atomically: the content is the owner's cache entry at that
+     moment (None = 404: nothing is applied).  The real transfer reads the cache when the response is
+     built and applies later; two concurrent transfers of one id can complete out of order (and
+     meshes_to_apply is a map: two completions before one process run coalesce).  Neither is modelled.
+   - the token set is keyed by uuid only: a material and a mesh under the same uuid share the token.
+     One id of one class here.
+   - a content that fails to decode (process_image_assets) leaves a token without an event.
+   - all classes enabled on every peer.
+
+   Everything is executable. *)
+From Coq Require Import NArith List Lia.
+From stdpp Require Import gmap list.
+
+Definition peer := N.      (* 0 = host *)
+Definition content := N.
+Definition host : peer := 0%N.
+
+(* ---------- reliable ordered channels (generic in the message type) --------------------------- *)
+
+Definition lget {A} (L : gmap (peer * peer) (list A)) (a b : peer) : list A := default [] (L !! (a, b)).
+Definition push_link {A} (L : gmap (peer * peer) (list A)) (a b : peer) (vs : list A) :=
+  <[(a, b) := lget L a b ++ vs]> L.
+(* server.broadcast / repeat_except_for_client: one copy per destination *)
+Definition send_to {A} (L : gmap (peer * peer) (list A)) (src : peer) (dsts : list peer) (vs : list A) :=
+  foldr (fun d L => push_link L src d vs) L dsts.
+Definition others (src : peer) (l : list peer) : list peer := filter (fun c => c <> src) l.
+Definition clients (n : nat) : list peer := N.of_nat <$> seq 1 n.
+
+(* ================================================================================================
+   Part A: one asset id of a URL class
+   ================================================================================================ *)
+
+Record apeer := APeer {
+  store : option content;
+  events : nat;
+  tok : bool;
+  served : option content;
+  pending : list peer
+}.
+
+Record astate := AState {
+  ap : gmap peer apeer;
+  aconn : list peer;                          (* connected clients, in connection order *)
+  alinks : gmap (peer * peer) (list peer)     (* src -> dst, head = oldest; a message is the OWNER to fetch from *)
+}.
+
+Inductive aevent :=
+| APublish (p : peer) (c : content)   (* the application inserts content c under the uuid on p *)
+| AReact (p : peer)                   (* one run of react_on_changed_* of p over everything unread *)
+| AReact1 (p : peer)                  (* ... over the oldest unread event only *)
+| ADeliver (src dst : peer)           (* dst handles the oldest message of src -> dst *)
+| ADownload (p : peer)                (* the oldest pending download of p completes and is applied *)
+| AJoin (c : peer) (pre : option content).
+                                      (* c connects holding [pre] under the uuid (None: a fresh client);
+                                         the host answers with the snapshot *)
+
+Global Instance aevent_eq_dec : EqDecision aevent.
+Proof. solve_decision. Defined.
+
+Definition apeer0 : apeer := APeer None 0 false None [].
+Definition getp (s : astate) (p : peer) : apeer := default apeer0 (ap s !! p).
+Definition pstore (s : astate) (p : peer) : option content := store (getp s p).
+Definition pevents (s : astate) (p : peer) : nat := events (getp s p).
+Definition ptok (s : astate) (p : peer) : bool := tok (getp s p).
+Definition pserved (s : astate) (p : peer) : option content := served (getp s p).
+Definition ppending (s : astate) (p : peer) : list peer := pending (getp s p).
+Definition link (s : astate) (a b : peer) : list peer := lget (alinks s) a b.
+Definition pexists (s : astate) (p : peer) : bool := bool_decide (is_Some (ap s !! p)).
+
+Definition set_peer (s : astate) (p : peer) (x : apeer) : astate :=
+  AState (<[p := x]> (ap s)) (aconn s) (alinks s).
+
+(* host: server.clients_id(); client: the host *)
+Definition dsts_of (s : astate) (p : peer) : list peer := if (p =? host)%N then aconn s else [host].
+
+(* One AssetEvent of the id handled by react_on_changed_*:
+     let Some(asset) = assets.get(id) else continue;
+     if track.skip_network_handle_change(id) { continue }      -- removes the token
+     let url = sync_assets.serve_*(id, asset);  send {id, url} -- CURRENT content of the store
+   second component: an announcement is sent *)
+Definition react1_peer (x : apeer) : apeer * bool :=
+  match events x with
+  | O => (x, false)
+  | S k =>
+      match store x with
+      | None => (APeer None k (tok x) (served x) (pending x), false)
+      | Some c =>
+          if tok x then (APeer (Some c) k false (served x) (pending x), false)
+          else (APeer (Some c) k false (Some c) (pending x), true)
+      end
+  end.
+
+Definition areact1 (s : astate) (p : peer) : option astate :=
+  match ap s !! p with
+  | None => None
+  | Some x =>
+      let '(x', ann) := react1_peer x in
+      Some (AState (<[p := x']> (ap s)) (aconn s)
+                   (if ann then send_to (alinks s) p (dsts_of s p) [p] else alinks s))
+  end.
+
+Fixpoint areact_n (k : nat) (s : astate) (p : peer) : option astate :=
+  match k with
+  | O => Some s
+  | S k => match areact1 s p with Some s1 => areact_n k s1 p | None => None end
+  end.
+
+(* full_sync::check_meshes on the host (and, on a joining client, its local build_full_sync) *)
+Definition serve_store (x : apeer) : apeer :=
+  APeer (store x) (events x) (tok x) (match store x with Some c => Some c | None => served x end) (pending x).
+
+Definition astep (s : astate) (e : aevent) : option astate :=
+  match e with
+  | APublish p c =>
+      match ap s !! p with
+      | None => None
+      | Some x => Some (set_peer s p (APeer (Some c) (S (events x)) (tok x) (served x) (pending x)))
+      end
+  | AReact p =>
+      match ap s !! p with
+      | None => None
+      | Some x => areact_n (events x) s p
+      end
+  | AReact1 p => areact1 s p
+  | ADeliver src dst =>
+      match link s src dst, ap s !! dst with
+      | o :: rest, Some x =>
+          let L := <[(src, dst) := rest]> (alinks s) in
+          (* SyncAssetTransfer::request *)
+          let x' := match served x with
+                    | Some _ => x
+                    | None => APeer (store x) (events x) (tok x) (served x) (pending x ++ [o])
+                    end in
+          Some (AState (<[dst := x']> (ap s)) (aconn s)
+                       (* the host relays whatever request did *)
+                       (if (dst =? host)%N then send_to L host (others src (aconn s)) [o] else L))
+      | _, _ => None
+      end
+  | ADownload p =>
+      match ap s !! p with
+      | None => None
+      | Some x =>
+          match pending x with
+          | [] => None
+          | o :: rest =>
+              match pserved s o with
+              | None => Some (set_peer s p (APeer (store x) (events x) (tok x) (served x) rest))   (* 404 *)
+              | Some c => Some (set_peer s p (APeer (Some c) (S (events x)) true (served x) rest))
+              end
+          end
+      end
+  | AJoin c pre =>
+      if (c =? host)%N || bool_decide (c ∈ aconn s) || pexists s c then None
+      else
+        let h := getp s host in
+        Some (AState (<[c := APeer pre 0 false pre []]> (<[host := serve_store h]> (ap s)))
+                     (aconn s ++ [c])
+                     (match store h with
+                      | Some _ => push_link (alinks s) host c [host]
+                      | None => alinks s
+                      end))
+  end.
+
+Fixpoint arun (s : astate) (tr : list aevent) : option astate :=
+  match tr with
+  | [] => Some s
+  | e :: tr => match astep s e with Some s' => arun s' tr | None => None end
+  end.
+
+(* host + clients 1..n, all connected, the id nowhere *)
+Definition ainit (n : nat) : astate :=
+  AState (list_to_map ((fun p => (p, apeer0)) <$> (host :: clients n))) (clients n) ∅.
+
+(* ---------- quiescence ------------------------------------------------------------------------- *)
+
+Definition apeer_idle (x : apeer) : Prop := events x = 0%nat /\ tok x = false /\ pending x = [].
+Definition aquiescent (s : astate) : Prop :=
+  map_Forall (fun _ l => l = []) (alinks s) /\ map_Forall (fun _ x => apeer_idle x) (ap s).
+Global Instance apeer_idle_dec x : Decision (apeer_idle x).
+Proof. unfold apeer_idle. apply _. Defined.
+Global Instance aquiescent_dec s : Decision (aquiescent s).
+Proof. unfold aquiescent. apply _. Defined.
+Definition aquiescentb (s : astate) : bool := bool_decide (aquiescent s).
+
+(* ---------- well-formed states (an invariant of every run from [ainit n]) ----------------------- *)
+
+Definition peers (s : astate) (p : peer) : Prop := p = host \/ p ∈ aconn s.
+
+Definition awf (s : astate) : Prop :=
+  NoDup (aconn s) /\ host ∉ aconn s /\
+  (forall p, is_Some (ap s !! p) <-> peers s p) /\
+  (forall a b, link s a b <> [] -> (a = host /\ b ∈ aconn s) \/ (b = host /\ a ∈ aconn s)).
+
+(* ---------- observations on traces -------------------------------------------------------------- *)
+
+Definition published (tr : list aevent) : list content :=
+  omap (fun e => match e with APublish _ c => Some c | _ => None end) tr.
+Definition publishers (tr : list aevent) : list peer :=
+  omap (fun e => match e with APublish p _ => Some p | _ => None end) tr.
+Definition joins (tr : list aevent) : list (peer * option content) :=
+  omap (fun e => match e with AJoin c pre => Some (c, pre) | _ => None end) tr.
+Definition only_publisher (w : peer) (tr : list aevent) : Prop := Forall (fun p => p = w) (publishers tr).
+Definition no_joins (tr : list aevent) : Prop := joins tr = [].
+Definition fresh_joins (tr : list aevent) : Prop := Forall (fun j => j.2 = None) (joins tr).
+
+(* neither a publication nor a join *)
+Definition plain (e : aevent) : Prop :=
+  match e with APublish _ _ | AJoin _ _ => False | _ => True end.
+Global Instance plain_dec e : Decision (plain e).
+Proof. destruct e; simpl; apply _. Defined.
+
+(* [bad s e] holds at some step of the run *)
+Fixpoint scan (bad : astate -> aevent -> bool) (s : astate) (tr : list aevent) : bool :=
+  match tr with
+  | [] => false
+  | e :: tr => bad s e || match astep s e with Some s' => scan bad s' tr | None => false end
+  end.
+
+(* S7: a download is applied on p while an event of the id is still unread on p: afterwards two (or more)
+   events are covered by ONE token *)
+Definition bad_S7 (s : astate) (e : aevent) : bool :=
+  match e with
+  | ADownload p =>
+      match ppending s p with
+      | o :: _ => match pserved s o with Some _ => negb (Nat.eqb (pevents s p) 0) | None => false end
+      | [] => false
+      end
+  | _ => false
+  end.
+Definition known_S7 (s : astate) (tr : list aevent) : bool := scan bad_S7 s tr.
+
+(* S12: an announcement reaches a peer that serves the id itself: request() ignores it *)
+Definition bad_S12 (s : astate) (e : aevent) : bool :=
+  match e with
+  | ADeliver src dst =>
+      match link s src dst, pserved s dst with
+      | _ :: _, Some _ => true
+      | _, _ => false
+      end
+  | _ => false
+  end.
+Definition known_S12 (s : astate) (tr : list aevent) : bool := scan bad_S12 s tr.
+
+(* a client joins while the host is still downloading the id: the snapshot is built from Assets<T>,
+   the later completion is swallowed by the token: the joiner is never told *)
+Definition bad_join_window (s : astate) (e : aevent) : bool :=
+  match e with
+  | AJoin _ _ => match ppending s host with [] => false | _ => true end
+  | _ => false
+  end.
+Definition known_join_window (s : astate) (tr : list aevent) : bool := scan bad_join_window s tr.
+
+(* every publication and every join happens in a quiescent state ("drain-separated") *)
+Fixpoint ops_at_quiescence (s : astate) (tr : list aevent) : bool :=
+  match tr with
+  | [] => true
+  | e :: tr =>
+      match astep s e with
+      | None => true
+      | Some s' => (if decide (plain e) then true else aquiescentb s) && ops_at_quiescence s' tr
+      end
+  end.
+
+(* number of messages an event hands to the network *)
+Definition sent1 (s : astate) (e : aevent) : nat :=
+  match e with
+  | AReact1 p => if (react1_peer (getp s p)).2 then length (dsts_of s p) else 0
+  | ADeliver src dst =>
+      match link s src dst with
+      | _ :: _ => if (dst =? host)%N then length (others src (aconn s)) else 0
+      | [] => 0
+      end
+  | AJoin _ _ => match pstore s host with Some _ => 1 | None => 0 end
+  | _ => 0
+  end.
+Fixpoint sent_react (k : nat) (s : astate) (p : peer) : nat :=
+  match k with
+  | O => 0
+  | S k => match areact1 s p with Some s1 => sent1 s (AReact1 p) + sent_react k s1 p | None => 0 end
+  end.
+Definition sent_by (s : astate) (e : aevent) : nat :=
+  match e with
+  | AReact p => sent_react (pevents s p) s p
+  | _ => sent1 s e
+  end.
+Fixpoint total_sent (s : astate) (tr : list aevent) : nat :=
+  match tr with
+  | [] => 0
+  | e :: tr => match astep s e with Some s' => sent_by s e + total_sent s' tr | None => 0 end
+  end.
+(* number of HTTP transfers started and applied *)
+Fixpoint total_downloads (s : astate) (tr : list aevent) : nat :=
+  match tr with
+  | [] => 0
+  | e :: tr =>
+      match astep s e with
+      | Some s' => (match e with ADownload _ => 1 | _ => 0 end) + total_downloads s' tr
+      | None => 0
+      end
+  end.
+
+(* ---------- examples (non-vacuity of the model) ------------------------------------------------- *)
+
+Definition aview (s : astate) (ps : list peer) : list (option content) * bool := (pstore s <$> ps, aquiescentb s).
+
+(* 3 peers, client 1 publishes; the host downloads from client 1 and relays the announcement; client 2
+   downloads from client 1 directly; quiescent, equal contents; only client 1 serves *)
+Definition ex_client_publishes : list aevent :=
+  [APublish 1 10; AReact 1; ADeliver 1 0; ADownload 0; ADeliver 0 2; AReact 0; ADownload 2; AReact 2]%N.
+Example ex_client_publishes_runs :
+  (fun s => (aview s [0; 1; 2]%N, pserved s <$> [0; 1; 2]%N)) <$> arun (ainit 2) ex_client_publishes
+  = Some (([Some 10; Some 10; Some 10]%N, true), [None; Some 10%N; None]).
+Proof. vm_compute. reflexivity. Qed.
+Example ex_client_publishes_traffic :
+  total_sent (ainit 2) ex_client_publishes = 2%nat /\ total_downloads (ainit 2) ex_client_publishes = 2%nat /\
+  known_S7 (ainit 2) ex_client_publishes = false /\ known_S12 (ainit 2) ex_client_publishes = false /\
+  ops_at_quiescence (ainit 2) ex_client_publishes = true.
+Proof. vm_compute. auto. Qed.
+
+(* the host publishes; every client downloads from the host *)
+Example ex_host_publishes :
+  (fun s => aview s [0; 1; 2; 3]%N) <$>
+  arun (ainit 3) [APublish 0 10; AReact1 0; ADeliver 0 3; ADeliver 0 1; ADownload 1; ADeliver 0 2; ADownload 3;
+                  AReact 1; ADownload 2; AReact 3; AReact 2]%N
+  = Some ([Some 10; Some 10; Some 10; Some 10]%N, true).
+Proof. vm_compute. reflexivity. Qed.
+
+(* drain-separated overwrites by one publisher replicate: the receivers swallowed their event with the
+   token, so they never served, so request() proceeds *)
+Example ex_overwrite_drained :
+  (fun s => aview s [0; 1; 2]%N) <$>
+  arun (ainit 2) (ex_client_publishes ++
+                  [APublish 1 20; AReact 1; ADeliver 1 0; ADeliver 0 2; ADownload 2; ADownload 0; AReact 0; AReact 2]%N)
+  = Some ([Some 20; Some 20; Some 20]%N, true).
+Proof. vm_compute. reflexivity. Qed.
+
+(* a download fetches the owner's CURRENT cache entry: a burst is coalesced by the transfer *)
+Example ex_burst_coalesced :
+  (fun s => aview s [0; 1]%N) <$>
+  arun (ainit 1) [APublish 0 10; AReact 0; APublish 0 20; AReact 0; ADeliver 0 1; ADownload 1; AReact 1;
+                  ADeliver 0 1; ADownload 1; AReact 1]%N
+  = Some ([Some 20; Some 20]%N, true).
+Proof. vm_compute. reflexivity. Qed.
+
+(* a fresh client joins after the publication and fetches from the host *)
+Example ex_join :
+  (fun s => (aview s [0; 1; 2; 3]%N, pserved s host)) <$>
+  arun (ainit 2) (ex_client_publishes ++ [AJoin 3 None; ADeliver 0 3; ADownload 3; AReact 3]%N)
+  = Some (([Some 10; Some 10; Some 10; Some 10]%N, true), Some 10%N).
+Proof. vm_compute. reflexivity. Qed.
+
+(* ================================================================================================
+   Part M: one material id (inline content)
+   ================================================================================================ *)
+
+Record mpeer := MPeer {
+  mstore : option content;
+  mevents : nat;
+  mtok : bool
+}.
+
+Record mstate := MState {
+  mp : gmap peer mpeer;
+  mconn : list peer;
+  mlinks : gmap (peer * peer) (list content)    (* a message is the CONTENT *)
+}.
+
+Inductive mevent :=
+| MPublish (p : peer) (c : content)
+| MReact (p : peer)                  (* one run of react_on_changed_materials over everything unread *)
+| MReact1 (p : peer)                 (* ... over the oldest unread event only *)
+| MDeliver (src dst : peer)          (* apply_material_change_from_network (+ relay on the host) *)
+| MJoin (c : peer).                  (* a fresh client connects; check_materials: the snapshot *)
+
+Global Instance mevent_eq_dec : EqDecision mevent.
+Proof. solve_decision. Defined.
+
+Definition mpeer0 : mpeer := MPeer None 0 false.
+Definition mgetp (s : mstate) (p : peer) : mpeer := default mpeer0 (mp s !! p).
+Definition mpstore (s : mstate) (p : peer) : option content := mstore (mgetp s p).
+Definition mpevents (s : mstate) (p : peer) : nat := mevents (mgetp s p).
+Definition mptok (s : mstate) (p : peer) : bool := mtok (mgetp s p).
+Definition mlink (s : mstate) (a b : peer) : list content := lget (mlinks s) a b.
+Definition mdsts_of (s : mstate) (p : peer) : list peer := if (p =? host)%N then mconn s else [host].
+
+(* one AssetEvent<StandardMaterial> of the id: the message carries the CURRENT content of the store, not
+   the content at the time of the event *)
+Definition mreact1_peer (x : mpeer) : mpeer * option content :=
+  match mevents x with
+  | O => (x, None)
+  | S k =>
+      match mstore x with
+      | None => (MPeer None k (mtok x), None)
+      | Some c => if mtok x then (MPeer (Some c) k false, None) else (MPeer (Some c) k false, Some c)
+      end
+  end.
+
+Definition mreact1 (s : mstate) (p : peer) : option mstate :=
+  match mp s !! p with
+  | None => None
+  | Some x =>
+      let '(x', ann) := mreact1_peer x in
+      Some (MState (<[p := x']> (mp s)) (mconn s)
+                   (match ann with Some c => send_to (mlinks s) p (mdsts_of s p) [c] | None => mlinks s end))
+  end.
+
+Fixpoint mreact_n (k : nat) (s : mstate) (p : peer) : option mstate :=
+  match k with
+  | O => Some s
+  | S k => match mreact1 s p with Some s1 => mreact_n k s1 p | None => None end
+  end.
+
+Definition mstep (s : mstate) (e : mevent) : option mstate :=
+  match e with
+  | MPublish p c =>
+      match mp s !! p with
+      | None => None
+      | Some x => Some (MState (<[p := MPeer (Some c) (S (mevents x)) (mtok x)]> (mp s)) (mconn s) (mlinks s))
+      end
+  | MReact p =>
+      match mp s !! p with
+      | None => None
+      | Some x => mreact_n (mevents x) s p
+      end
+  | MReact1 p => mreact1 s p
+  | MDeliver src dst =>
+      match mlink s src dst, mp s !! dst with
+      | c :: rest, Some x =>
+          let L := <[(src, dst) := rest]> (mlinks s) in
+          Some (MState (<[dst := MPeer (Some c) (S (mevents x)) true]> (mp s)) (mconn s)
+                       (if (dst =? host)%N then send_to L host (others src (mconn s)) [c] else L))
+      | _, _ => None
+      end
+  | MJoin c =>
+      if (c =? host)%N || bool_decide (c ∈ mconn s) || bool_decide (is_Some (mp s !! c)) then None
+      else Some (MState (<[c := mpeer0]> (mp s)) (mconn s ++ [c])
+                        (match mpstore s host with
+                         | Some v => push_link (mlinks s) host c [v]
+                         | None => mlinks s
+                         end))
+  end.
+
+Fixpoint mrun (s : mstate) (tr : list mevent) : option mstate :=
+  match tr with
+  | [] => Some s
+  | e :: tr => match mstep s e with Some s' => mrun s' tr | None => None end
+  end.
+
+Definition minit (n : nat) : mstate :=
+  MState (list_to_map ((fun p => (p, mpeer0)) <$> (host :: clients n))) (clients n) ∅.
+
+Definition mpeer_idle (x : mpeer) : Prop := mevents x = 0%nat /\ mtok x = false.
+Definition mquiescent (s : mstate) : Prop :=
+  map_Forall (fun _ l => l = []) (mlinks s) /\ map_Forall (fun _ x => mpeer_idle x) (mp s).
+Global Instance mpeer_idle_dec x : Decision (mpeer_idle x).
+Proof. unfold mpeer_idle. apply _. Defined.
+Global Instance mquiescent_dec s : Decision (mquiescent s).
+Proof. unfold mquiescent. apply _. Defined.
+Definition mquiescentb (s : mstate) : bool := bool_decide (mquiescent s).
+
+Definition mpeers (s : mstate) (p : peer) : Prop := p = host \/ p ∈ mconn s.
+
+Definition mwf (s : mstate) : Prop :=
+  NoDup (mconn s) /\ host ∉ mconn s /\
+  (forall p, is_Some (mp s !! p) <-> mpeers s p) /\
+  (forall a b, mlink s a b <> [] -> (a = host /\ b ∈ mconn s) \/ (b = host /\ a ∈ mconn s)).
+
+Definition mpublished (tr : list mevent) : list content :=
+  omap (fun e => match e with MPublish _ c => Some c | _ => None end) tr.
+Definition mpublishers (tr : list mevent) : list peer :=
+  omap (fun e => match e with MPublish p _ => Some p | _ => None end) tr.
+Definition monly_publisher (w : peer) (tr : list mevent) : Prop := Forall (fun p => p = w) (mpublishers tr).
+Definition mplain (e : mevent) : Prop :=
+  match e with MPublish _ _ | MJoin _ => False | _ => True end.
+Global Instance mplain_dec e : Decision (mplain e).
+Proof. destruct e; simpl; apply _. Defined.
+
+Fixpoint mscan (bad : mstate -> mevent -> bool) (s : mstate) (tr : list mevent) : bool :=
+  match tr with
+  | [] => false
+  | e :: tr => bad s e || match mstep s e with Some s' => mscan bad s' tr | None => false end
+  end.
+
+(* S7 (materials): an inline update is applied on dst while an event of the id is still unread on dst *)
+Definition mbad_S7 (s : mstate) (e : mevent) : bool :=
+  match e with
+  | MDeliver src dst =>
+      match mlink s src dst with
+      | _ :: _ => negb (Nat.eqb (mpevents s dst) 0)
+      | [] => false
+      end
+  | _ => false
+  end.
+Definition mknown_S7 (s : mstate) (tr : list mevent) : bool := mscan mbad_S7 s tr.
+
+Fixpoint mops_at_quiescence (s : mstate) (tr : list mevent) : bool :=
+  match tr with
+  | [] => true
+  | e :: tr =>
+      match mstep s e with
+      | None => true
+      | Some s' => (if decide (mplain e) then true else mquiescentb s) && mops_at_quiescence s' tr
+      end
+  end.
+
+Definition msent1 (s : mstate) (e : mevent) : nat :=
+  match e with
+  | MReact1 p => match (mreact1_peer (mgetp s p)).2 with Some _ => length (mdsts_of s p) | None => 0 end
+  | MDeliver src dst =>
+      match mlink s src dst with
+      | _ :: _ => if (dst =? host)%N then length (others src (mconn s)) else 0
+      | [] => 0
+      end
+  | MJoin _ => match mpstore s host with Some _ => 1 | None => 0 end
+  | _ => 0
+  end.
+Fixpoint msent_react (k : nat) (s : mstate) (p : peer) : nat :=
+  match k with
+  | O => 0
+  | S k => match mreact1 s p with Some s1 => msent1 s (MReact1 p) + msent_react k s1 p | None => 0 end
+  end.
+Definition msent_by (s : mstate) (e : mevent) : nat :=
+  match e with
+  | MReact p => msent_react (mpevents s p) s p
+  | _ => msent1 s e
+  end.
+Fixpoint mtotal_sent (s : mstate) (tr : list mevent) : nat :=
+  match tr with
+  | [] => 0
+  | e :: tr => match mstep s e with Some s' => msent_by s e + mtotal_sent s' tr | None => 0 end
+  end.
+
+Definition mview (s : mstate) (ps : list peer) : list (option content) * bool := (mpstore s <$> ps, mquiescentb s).
+
+(* client 1 publishes, the host applies and relays, client 2 applies; the tokens swallow the echoes *)
+Example ex_material :
+  (fun s => mview s [0; 1; 2]%N) <$>
+  mrun (minit 2) [MPublish 1 10; MReact 1; MDeliver 1 0; MDeliver 0 2; MReact 0; MReact 2;
+                  MPublish 1 20; MReact 1; MDeliver 1 0; MReact 0; MDeliver 0 2; MReact 2]%N
+  = Some ([Some 20; Some 20; Some 20]%N, true).
+Proof. vm_compute. reflexivity. Qed.
+
+Example ex_material_join :
+  (fun s => mview s [0; 1; 2; 3]%N) <$>
+  mrun (minit 2) [MPublish 0 10; MReact 0; MJoin 3; MDeliver 0 3; MDeliver 0 1; MDeliver 0 2;
+                  MReact 1; MReact 2; MReact 3]%N
+  = Some ([Some 10; Some 10; Some 10; Some 10]%N, true).
+Proof. vm_compute. reflexivity. Qed.
